@@ -10,7 +10,9 @@
 #endif
 extern "C" void harness() {
   choose_filtration(); for (int i = 0; i < M; i++) idAtPos[i] = i;
-#if VP_Z2
+#if VP_Z2 && defined(VP_NORESERVE)
+  Mat mat;   // no capacity announced: every container grows with the insertions
+#elif VP_Z2
   Mat mat(M);
 #else
   Mat mat(M, VP_P);
